@@ -44,7 +44,7 @@ def cases(tier, seed):
     count = 50000 // 40 if tier == 'thorough' else 64
     per = 40 if tier == 'thorough' else 14
     for idx in range(count):
-        out.append(dict(id='hist-%d' % idx, seed=seed * 100003 + idx, count=per))
+        out.append(dict(id='hist-%d' % idx, seed=seed * 100003 + idx, count=per, long=(idx % 16 == 0)))
     return out
 
 
@@ -232,6 +232,64 @@ def run_history(table, hist, obs):
     return violations, kinds
 
 
+def run_burst(table, hist, obs):
+    ''' The same receive policy when the bundles arrive back to back, before the event loop runs anything in between. '''
+    from vf.world.sim import Sim
+    from vf import bp_harness as bh
+    sim = Sim(0, 'eager')
+    node = bh.BpNode(sim, NODE, rx_routes=table, tx_routes=[dict(pattern=r'.*')])
+    seen_model = set()
+    want_deliver, want_fwd = [], []
+    problems = []
+    for step, item in enumerate(hist):
+        payload = bytes(((pos * 17) ^ step ^ 0x33) & 0xFF for pos in range(item['plen']))
+        decision, _reason = model_step(table, seen_model, item)
+        if decision == 'deliver' and item['frag'] is None:
+            want_deliver.append(_ident(item))
+        elif decision == 'forward':
+            want_fwd.append(_ident(item))
+        err = node.recv(_encode(item, payload))
+        obs['receives'] += 1
+        if err is not None:
+            problems.append('receive callback raised %s: %s' % (type(err).__name__, err))
+    res = sim.settle(20000)
+    obs['bursts'] = obs.get('bursts', 0) + 1
+    got_deliver = [tuple(rec['ident']) for rec in node.observed if 'deliver' in rec['actions'] and not rec['is_fragment']]
+    got_fwd = []
+    for (_no, _raw, data) in node.cl.sent:
+        try:
+            dec, _problems = bpv7.decode(data)
+        except bpv7.DecodeError:
+            got_fwd.append(('undecodable',))
+            continue
+        if not dec['primary']['flags'] & bpv7.FLAG_ADMIN:
+            got_fwd.append(bpv7.ident(dec))
+    if sim.world.callback_errors:
+        problems.append('loop callback raised %s' % sim.world.callback_errors[0].exc_type)
+    if sorted(map(repr, got_deliver)) != sorted(map(repr, want_deliver)):
+        problems.append('delivered %s, model says %s' % (got_deliver[:4], want_deliver[:4]))
+    if got_fwd != want_fwd:
+        problems.append('forwarded %d bundle(s) %s, model says %d %s' % (len(got_fwd), got_fwd[:3], len(want_fwd), want_fwd[:3]))
+    if node.seen() != seen_model:
+        problems.append('seen-set differs: extra %s missing %s' % (sorted(node.seen() - seen_model)[:3], sorted(seen_model - node.seen())[:3]))
+    if res != 'quiescent':
+        problems.append('loop did not become quiescent (%s)' % res)
+    if problems:
+        return [dict(key=None, what='burst of %d: %s' % (len(hist), '; '.join(problems)), detail=dict(table=table, history=hist))]
+    return []
+
+
+def _long_history(rng):
+    ''' Hundreds of distinct identities between a bundle and its repeat. '''
+    hist = []
+    for idx in range(rng.choice([260, 300, 520])):
+        hist.append(dict(src=SOURCES[idx % len(SOURCES)], time=1000 + idx, seq=idx % 3, frag=None, dest=rng.choice(DESTS), flags=0, crc=idx % 3,
+                         tag='new', plen=4, report_to='dtn:none'))
+    for idx in (0, 1, 5, 100):
+        hist.append(dict(hist[idx], tag='repeat'))
+    return hist
+
+
 def run_case(case):
     rng = random.Random(case['seed'])
     obs = dict(receives=0, repeats_ignored=0, own_source_ignored=0, first_match_decisions=0, delivered=0, forwarded=0, no_route=0)
@@ -244,11 +302,20 @@ def run_case(case):
         hist = _gen_history(rng, rng.choice([1, 3, 8, 20, 40]))
         viols, kinds = run_history(table, hist, obs)
         violations += viols
+        if rng.random() < 0.3:
+            clean = [item for item in hist if not item.get('corrupt')]
+            violations += run_burst(table, clean, obs)
         if len(kinds) >= 2 and any(item['tag'] != 'new' for item in hist):
             nontrivial += 1
             classes.add(hash((repr(table), repr(hist))) & 0xFFFFFFFFFFFF)
         if sample is None:
             sample = dict(table=table, history=[dict(item) for item in hist[:6]])
+    if case.get('long'):
+        table = _gen_table(rng)
+        hist = _long_history(rng)
+        viols, _kinds = run_history(table, hist, obs)
+        violations += viols
+        obs['long_histories'] = obs.get('long_histories', 0) + 1
     uniq = {}
     for viol in violations:
         uniq.setdefault(viol['what'].split(':', 1)[-1][:80], viol)
